@@ -7,6 +7,8 @@ import (
 	"encoding/base64"
 	"encoding/json"
 	"fmt"
+	"io"
+	iofs "io/fs"
 	"os"
 	"path/filepath"
 	"sort"
@@ -145,21 +147,43 @@ func judgeTape(f failer, cfg world.Cfg, dir string, forged []byte, lg *legit, wh
 			if r.Typeflag != int64(tar.TypeReg) || r.Linkname != "" {
 				continue
 			}
-			data, ferr := fetchAt(f, w, r.Record, r.Block)
-			if ferr != nil {
-				live.S.Class("verdict:restore-rejected")
-				continue
+			// three read routes: Fetch by position, Operations.Restore, and the filesystem handle
+			routes := []struct {
+				name string
+				get  func() ([]byte, error)
+			}{
+				{"recovery.Fetch", func() ([]byte, error) { return fetchAt(f, w, r.Record, r.Block) }},
+				{"Operations.Restore", func() ([]byte, error) {
+					var out sinkWC
+					var err error
+					checkObs(f, hist.Call("Restore", func() {
+						err = w.ReadOps.Restore(func(string, iofs.FileMode) (io.WriteCloser, error) { return &out, nil }, func(string, iofs.FileMode) error { return nil }, r.Name, "", true)
+					}), "restore")
+					return out.Bytes(), err
+				}},
+				{"File.Read", func() ([]byte, error) {
+					data, err := observe.ReadAll(hist.Call, w.FS, observe.Clean(r.Name))
+					checkObs(f, hangOnly(err), "read")
+					return data, err
+				}},
 			}
-			ok := false
-			for _, c := range lg.contents[observe.Clean(r.Name)] {
-				if bytes.Equal(c, data) {
-					ok = true
+			for _, rt := range routes {
+				data, ferr := rt.get()
+				if ferr != nil {
+					live.S.Class("verdict:restore-rejected")
+					continue
 				}
+				ok := false
+				for _, c := range lg.contents[observe.Clean(r.Name)] {
+					if bytes.Equal(c, data) {
+						ok = true
+					}
+				}
+				if !ok {
+					return fmt.Sprintf("%s: %s of %s (record %d block %d) returned %d bytes that the legitimate writer never signed under that name, without an error", what, rt.name, r.Name, r.Record, r.Block, len(data))
+				}
+				live.S.Class("verdict:restore-identical")
 			}
-			if !ok {
-				return fmt.Sprintf("%s: restoring %s (record %d block %d) returned %d bytes that the legitimate writer never signed under that name, without an error", what, r.Name, r.Record, r.Block, len(data))
-			}
-			live.S.Class("verdict:restore-identical")
 		}
 	}
 	return ""
@@ -220,6 +244,22 @@ func applyForgery(cfg world.Cfg, ms []c08Member, fg c08Forgery) ([]c08Member, bo
 	out := append([]c08Member(nil), ms...)
 	i := fg.Member % len(ms)
 	j := fg.Other % len(ms)
+	if strings.HasPrefix(fg.Kind, "body-") {
+		var withBody []int
+		for k, m := range ms {
+			if len(m.Body) > 0 {
+				withBody = append(withBody, k)
+			}
+		}
+		if len(withBody) == 0 {
+			return nil, false
+		}
+		i = withBody[fg.Member%len(withBody)]
+		j = withBody[fg.Other%len(withBody)]
+		if i == j && len(withBody) > 1 {
+			j = withBody[(fg.Other+1)%len(withBody)]
+		}
+	}
 	wrap, ok := openWrapper(cfg, &out[i].Hdr)
 	if !ok {
 		return nil, false
@@ -460,10 +500,15 @@ var c08Weights = map[string]int{
 
 func drawC08(t *rapid.T) c08Case {
 	var c c08Case
-	n := rapid.IntRange(4, 14).Draw(t, "nforgeries")
+	// one forgery of every kind, then a few more drawn ones
+	n := len(c08Kinds) + rapid.IntRange(0, 6).Draw(t, "nforgeries")
 	for i := 0; i < n; i++ {
+		kind := c08Kinds[i%len(c08Kinds)]
+		if i >= len(c08Kinds) {
+			kind = rapid.SampledFrom(c08Kinds).Draw(t, "kind")
+		}
 		c.Forgeries = append(c.Forgeries, c08Forgery{
-			Kind:   rapid.SampledFrom(c08Kinds).Draw(t, "kind"),
+			Kind:   kind,
 			Member: rapid.IntRange(0, 40).Draw(t, "member"),
 			Other:  rapid.IntRange(0, 40).Draw(t, "other"),
 			Field:  rapid.SampledFrom(c08Fields).Draw(t, "field"),
@@ -480,6 +525,10 @@ func TestC08(t *testing.T) {
 		cfg := hist.DrawCfg(t, 0, []int{1, 3, 20})
 		cfg.Signature = rapid.SampledFrom([]string{"minisign", "pgp"}).Draw(t, "signature!")
 		cfg.Compression = rapid.SampledFrom([]string{"", "", "gzip", "zstandard", "lz4"}).Draw(t, "compression!")
+		if rapid.IntRange(0, 2).Draw(t, "plain-content") == 0 {
+			// with a plain pipeline the signature is the only thing that can notice altered content
+			cfg.Compression, cfg.Encryption = "", ""
+		}
 		c := drawC08(t)
 		c.ByteEdits = *byteEdits
 		g := hist.NewGen(t, c08Weights, hist.Universe[:6], 3, cfg.RecordSize)
